@@ -38,6 +38,16 @@ type HIDIConfigRaw struct {
 	} `toml:"HIDI"`
 }
 
+// unmarshalTOML turns panics of the toml library (value of the wrong kind, e.g. a date for a number) into errors
+func unmarshalTOML(data []byte, v interface{}) (err error) {
+	defer func() {
+		if r := recover(); r != nil {
+			err = fmt.Errorf("toml decoder failed: %v", r)
+		}
+	}()
+	return toml.Unmarshal(data, v)
+}
+
 func LoadHIDIConfig(path string) (HIDIConfig, error) {
 	data, err := os.ReadFile(path)
 	if err != nil {
@@ -45,9 +55,13 @@ func LoadHIDIConfig(path string) (HIDIConfig, error) {
 	}
 
 	var rawConfig HIDIConfigRaw
-	err = toml.Unmarshal(data, &rawConfig)
+	err = unmarshalTOML(data, &rawConfig)
 	if err != nil {
 		return HIDIConfig{}, err
+	}
+
+	if rawConfig.HIDI.PoolRate <= 0 || rawConfig.HIDI.DiscoveryRate <= 0 {
+		return HIDIConfig{}, fmt.Errorf("pool_rate (%d) and discovery_rate (%d) must be positive", rawConfig.HIDI.PoolRate, rawConfig.HIDI.DiscoveryRate)
 	}
 
 	var config HIDIConfig
